@@ -29,6 +29,7 @@ type Slice struct {
 	rootOnly bool
 	stopG    map[string]bool
 	stopF    map[string]bool
+	spec     *Specialised
 }
 
 type sliceOpt struct {
@@ -42,12 +43,14 @@ type sliceOpt struct {
 	// StopGlobals / StopFields are leaves: recorded, not traced further.
 	StopGlobals []string
 	StopFields  []string
+	// Spec restricts phi nodes of Spec.Fn to their live incoming edges.
+	Spec *Specialised
 }
 
 func (w *World) BackSlice(v ssa.Value, opt sliceOpt) *Slice {
 	s := &Slice{w: w, Consts: map[string]bool{}, Calls: map[string][]ssa.Value{}, Globals: map[string]bool{}, Fields: map[string]bool{},
 		Params: map[*ssa.Parameter]bool{}, Values: map[ssa.Value]bool{}, maxDepth: opt.Depth, calls: opt.IntoCallees, callers: opt.ToCallers,
-		rootOnly: opt.RootOnly, stopG: map[string]bool{}, stopF: map[string]bool{}}
+		rootOnly: opt.RootOnly, stopG: map[string]bool{}, stopF: map[string]bool{}, spec: opt.Spec}
 	for _, g := range opt.StopGlobals {
 		s.stopG[g] = true
 	}
@@ -237,7 +240,18 @@ func (s *Slice) visit(v ssa.Value, depth int) {
 	case *ssa.Alloc:
 		s.visitStoresTo(x, depth)
 	case *ssa.Phi:
-		for _, e := range x.Edges {
+		for i, e := range x.Edges {
+			if s.spec != nil && x.Parent() == s.spec.Fn {
+				pred, live := x.Block().Preds[i], false
+				for si, sc := range pred.Succs {
+					if sc == x.Block() && s.spec.Edge[cfgEdge{pred, si}] {
+						live = true
+					}
+				}
+				if !live {
+					continue
+				}
+			}
 			s.visit(e, depth)
 		}
 	case *ssa.UnOp:
